@@ -4,6 +4,7 @@ import (
 	"fmt"
 	"go/ast"
 	"go/token"
+	"strings"
 
 	"verif/sa/core"
 )
@@ -20,8 +21,8 @@ func init() {
 	register(&core.Property{
 		ID:       "C31",
 		Title:    "Blacklisted accounts cannot transact",
-		Packages: []string{"types", "executor", "system/consensus", "system/mempool"},
-		Explanation: "Decides R31a-R31d: the core check rejects when the sender, recipient, real recipient, EVM contract address or raw EVM transfer target is blacklisted (each position: a hit can never reach the success return, and the error wraps ErrBlockedAccount); " +
+		Packages: []string{"types", "executor", "system/consensus", "system/mempool", "system/dapp"},
+		Explanation: "Decides R31a-R31e: the core check rejects when the sender, recipient, real recipient, EVM contract address or raw EVM transfer target is blacklisted (each position: a hit can never reach the success return, and the error wraps ErrBlockedAccount); " +
 			"each of the six enforcement sites (executor checkTx/checkTxGroup, block assembly for single and group, mempool checkTx, delayed-tx entry points) cannot reach its accepting sink when the check fails; group checks quantify over all members; " +
 			"the proxied (inner) transaction is what the executor screens; the consensus-side check is fork-gated while the pool-side check is not.",
 		NotCovered: "that every accepted spelling of an address normalises to the same 20 bytes (V: string parsing in parseBlockedAccount).",
@@ -91,6 +92,37 @@ func init() {
 					Forbidden: core.CallSink(mp + "(*delayTxCache).addDelayTx"), Min: 1, Name: "blacklist hit (delayed tx rpc)"}.Check(r)
 				core.FailStops{Fn: mpm + "addDelayTx", Callee: []string{"types.CheckTxBlockedAccountImmediate"}, Fail: core.OErrNonNil, Idx: -1,
 					Forbidden: core.CallSink(mp + "(*delayTxCache).addDelayTx"), Min: 1, Name: "blacklist hit (delayed tx in block)"}.Check(r)
+				// the pool-side group path hands every member to checkTx (which holds the immediate screening)
+				memberScreened := core.CallGuard{Fact: "member-screened", Callee: core.Names("queue.(*Message).Err"), Pass: core.OErrNil, Idx: -1,
+					ArgOK: func(c *core.Ctx, call *ast.CallExpr) bool {
+						sel, ok := ast.Unparen(call.Fun).(*ast.SelectorExpr)
+						if !ok {
+							return false
+						}
+						chk := singleDefCall(c, sel.X, 0, mpm+"checkTx")
+						// the message checked carries a member of the group's tx list
+						return chk != nil && len(chk.Args) == 1 && core.Mentions("types.Transactions.Txs")(c, chk.Args[0])
+					}}
+				core.Dominated{Fn: mpm + "checkTxs", Spec: &core.FlowSpec{Nodes: []core.NodeGen{msgRejectGen()}, Calls: []core.CallGuard{memberScreened},
+					// a para-chain node does not pool a main-chain tx: it forwards it to the main chain, whose own pool screens it (assumption)
+					Assume: func(c *core.Ctx, e ast.Expr) core.Tri {
+						if callTo("types.IsForward2MainChainTx")(c, e) {
+							return core.False
+						}
+						return core.Unknown
+					},
+					Foralls: []core.ForallGuard{{Fact: "all-members-screened", Inner: "member-screened", Loop: core.CountsOver(core.IsObj("types.Transactions.Txs"), 0)}}},
+					Sink: acceptingReturn, Need: []Fact{"all-members-screened"}, Min: 1,
+					SkipSink: func(fl *core.Flow, n *core.GNode) (bool, string) {
+						if rs, ok := n.Ast.(*ast.ReturnStmt); ok && len(rs.Results) == 1 {
+							if call, ok := ast.Unparen(rs.Results[0]).(*ast.CallExpr); ok {
+								if fn := core.Callee(fl.C.Info, call); fn != nil && core.ShortName(fn) == mpm+"checkTx" && len(call.Args) == 1 && core.IsObj("param:0")(fl.C, call.Args[0]) {
+									return true, "single transaction: delegates to checkTx on the message itself"
+								}
+							}
+						}
+						return false, ""
+					}}.Check(r)
 				// every member of a group is screened
 				for _, g := range []struct{ fn, inner string }{{"types.CheckTxsBlockedAccount", "types.CheckTxBlockedAccount"}, {"types.CheckTxsBlockedAccountImmediate", "types.CheckTxBlockedAccountImmediate"}} {
 					core.Dominated{Fn: g.fn, Spec: &core.FlowSpec{Calls: []core.CallGuard{errNil("member-clean", g.inner)},
@@ -164,6 +196,34 @@ func init() {
 						r.Fail(label, r.W.Pos(f.Node().Pos()), fmt.Sprintf("fork-gated=%v, returns core verdict=%v", gated, direct))
 					}
 				}
+			}),
+			rule("R31e", "the EVM-target screening classifies a tx by the executor-name normaliser that driver dispatch uses", 2, func(r *Run) {
+				// which types.* normaliser does driver dispatch apply to the execer name?
+				ld := r.Fn("system/dapp.LoadDriver")
+				if ld == nil {
+					return
+				}
+				norm := ""
+				ast.Inspect(ld.Body(), func(x ast.Node) bool {
+					as, ok := x.(*ast.AssignStmt)
+					if !ok || len(as.Lhs) != 1 || !core.IsObj("param:0")(ld.Ctx(), as.Lhs[0]) {
+						return true
+					}
+					for _, call := range core.CallsIn(as.Rhs[0]) {
+						if fn := core.Callee(ld.Info(), call); fn != nil && fn.Pkg() != nil && strings.HasSuffix(fn.Pkg().Path(), "chain33/types") {
+							norm = core.ShortName(fn)
+						}
+					}
+					return true
+				})
+				label := "system/dapp.LoadDriver normalises the executor name through one types.* function"
+				if norm == "" {
+					r.Fail(label, r.W.Pos(ld.Node().Pos()), "no `name = types.<normaliser>(name)` found: the reference for the sibling comparison is gone")
+					return
+				}
+				r.OK(label, r.W.Pos(ld.Node().Pos()), norm)
+				core.HasAtom{Fn: "types.checkEVMTxBlockedTarget", Name: "'is an EVM transaction' on the execer normalised by " + norm + " (as driver dispatch does: user.evm.* and user.p.*.evm run the evm driver)",
+					L: core.DerivedFromCall(norm), R: core.IsObj("types.evmExecName"), Rel: token.NEQ}.Check(r)
 			}),
 		},
 	})
